@@ -69,9 +69,19 @@ def gen(rng, scenario, tier):
     n = rng.randint(50, 450)
     if scenario == "accuracy":
         ev, drifts = workload.outcomes(rng, n)
-    else:
-        ev, drifts = workload.stream_values(rng, n, regimes=("tiny", "lattice"))
-    return {"cfg": cfg, "events": ev, "drift_positions": drifts}
+        # both classes built from the same POSITIONAL argument tuple in one run in four (the documented order of ADWIN's parameters)
+        return {"cfg": cfg, "events": ev, "drift_positions": drifts, "positional": rng.random() < 0.25}
+    ev, drifts = workload.stream_values(rng, n, regimes=("tiny", "lattice"))
+    case = {"cfg": cfg, "events": ev, "drift_positions": drifts}
+    # mean() / variance() are read after every update, every few updates, or only when a drift is reported
+    case["acc_every"] = rng.choice([1, 1, 1, 5, "drift"])
+    if rng.random() < 0.12:
+        # small whole numbers delivered in a narrow dtype (sensor counts as uint8 / int8, single-precision readings)
+        lo, hi = min(ev), max(ev)
+        span = (hi - lo) or 1.0
+        case["events"] = [float(round(100.0 * (v - lo) / span)) for v in ev]
+        case["dtype"] = rng.choice(["uint8", "int8", "int16", "float32"])
+    return case
 
 
 def run(case, ctx):
@@ -88,7 +98,10 @@ def run(case, ctx):
         ctx.step = t - 1
         det = ctx.maybe_fork(det)
         w_before = m.W
-        ctx.call("C03:adwin:update", det.update, x)
+        if case.get("dtype"):
+            ctx.call("C03:adwin:update", det.update, np.array([x], dtype=case["dtype"]))
+        else:
+            ctx.call("C03:adwin:update", det.update, x)
         ctx.sim_time += 1
         drift, tie, dropped = m.update(x, t)
         got_drift = det.drift_state == "drift"
@@ -97,7 +110,9 @@ def run(case, ctx):
         w = m.window()
         mean, var = float(w.mean()), float(w.var())
         scale = max(1.0, float(np.max(np.abs(w))))
-        stats_ok = close(det.mean(), mean, 1e-8, scale) and close(det.variance(), var, 1e-7, scale * scale)
+        sched = case.get("acc_every", 1)
+        read_now = sched == 1 or (sched == "drift" and (got_drift or t == len(case["events"]))) or (isinstance(sched, int) and t % sched == 0)
+        stats_ok = (not read_now) or (close(det.mean(), mean, 1e-8, scale) and close(det.variance(), var, 1e-7, scale * scale))
         if got_drift != drift or (not stats_ok and tie):
             if tie:
                 ctx.near_tie()
@@ -136,8 +151,13 @@ def run_accuracy(case, ctx):
     from menelaus.concept_drift import ADWINAccuracy
 
     cfg = case["cfg"]
-    det = ctx.call("C03:adwinacc:ctor", ADWINAccuracy, **cfg)
-    twin = ADWIN(**cfg)
+    if case.get("positional"):
+        args = [cfg[k] for k in KW]
+        det = ctx.call("C03:adwinacc:ctor", ADWINAccuracy, *args)
+        twin = ADWIN(*args)
+    else:
+        det = ctx.call("C03:adwinacc:ctor", ADWINAccuracy, **cfg)
+        twin = ADWIN(**cfg)
     cuts = 0
     for t, (yt, yp) in enumerate(case["events"], 1):
         ctx.step = t - 1
